@@ -1,0 +1,24 @@
+//go:build verif
+
+package core
+
+// Verification hook (build tag verif): the client-side timestamp batch state
+// (tsCount, tsLimit, tsLast) is process-global. Swapping it lets one test
+// process play several independent clients of one server.
+
+// VerifTsState is a copy of the client-side timestamp batch state.
+type VerifTsState struct {
+	Count int
+	Limit int
+	Last  SuDate
+}
+
+// VerifSwapTsState installs s as the client-side timestamp state
+// and returns the previous state.
+func VerifSwapTsState(s VerifTsState) VerifTsState {
+	tsLock.Lock()
+	defer tsLock.Unlock()
+	old := VerifTsState{Count: tsCount, Limit: tsLimit, Last: tsLast}
+	tsCount, tsLimit, tsLast = s.Count, s.Limit, s.Last
+	return old
+}
